@@ -41,6 +41,11 @@ CHECKS = {
         "note": "Trusted: Lean kernel; atomicity of each admin operation rests on the balancer write lock held for the whole body (source fact); concurrent admin actors are exercised under -race in C12 only.",
         "technique": "Lean 4 proof (refinement lemmas on list operations) + differential correspondence",
     },
+    "C12": {
+        "text": "Lean theorems over a dynamic model of goroutines, sync.Mutex/RWMutex and shared locations, for any number of goroutines, any programs and every interleaving: if every access holds its location's guard (write mode to write) no data race is reachable (lockset_sound); if locks are acquired in strictly increasing rank and released, no reachable state is stuck (lockorder_sound). Their hypotheses are established for the current source by a lockset / lock-order analysis regenerated on every run (go/types; 1000+ access rows with must-hold sets through helper calls, freshness of unpublished objects, may-hold edges through interface and cross-package calls) and kernel-checked against a hand-written guard policy and lock ranking (accesses_guarded, lock_order_ranked, no_callback_under_lock, lock_classes_ranked, lock_analysis_clean). Race-detector builds of the whole cmd/helios composition under client / admin / metrics / probe / Stop load and of the WebSocket pool search for a concrete failing schedule and cross-check the analysis.",
+        "note": "Trusted: Lean kernel; the analyser's soundness and its freshness/confinement/snapshot/start-up classifications (listed in the evidence assumptions); Go memory model. The race detector only searches; it never stands in for the theorem.",
+        "technique": "Lean 4 proof (lockset + lock-order soundness over all interleavings) + regenerated static lock facts checked by decide +kernel + race-detector workloads as search",
+    },
     "C13": {
         "text": "Lean theorem conserved_run: for every history of overlapping request begins/ends (all outcome classes incl. aborted, limiter/breaker rejections, no-backend), admin operations, ejections and probes, total = successful + failed + rate_limited + in_flight; at quiescence the counters add up; gauges are zero when idle given the gauge invariant. Tied to the code by differential runs through the real ServeHTTP/ReverseProxy with scripted transports and by comparing /metrics and listing numbers with the clients' and backends' own tallies.",
         "note": "Trusted: Lean kernel; harness. The per-object gauge invariant (GaugeOK) is stated and used but its preservation is checked by the correspondence, not yet proved.",
